@@ -33,6 +33,10 @@ func (p *c40Prop) Gen(r *Rng, tier string, n int) []string {
 	out := make([]string, n)
 	for i := range out {
 		g := r.Fork()
+		if g.Chance(35) {
+			out[i] = c40GenMulti(g, i)
+			continue
+		}
 		mode := "fs"
 		if g.Chance(40) {
 			mode = "sql"
@@ -100,6 +104,9 @@ func (p *c40Prop) Run(in string, scratch string) Result {
 	f := strings.Split(in, " ")
 	if len(f) != 6 {
 		return Result{Out: "PARSE-ERROR", Oracle: "-", Tags: []string{"invalid"}}
+	}
+	if f[3] == "M" {
+		return c40RunMulti(in, f, scratch)
 	}
 	mode, versioned := f[0], f[1] == "1"
 	var parts [][]byte
